@@ -46,10 +46,10 @@ theorem sswu_on_curve_generic {F : Type} [Field F] [DecidableEq F] (A B Z : F) (
       (sswu Z mulByA mulByB sr sgn0 u).1 ^ 3 + A * (sswu Z mulByA mulByB sr sgn0 u).1 + B :=
   H2CSqrt.sswu_on_curve_w A B Z mulByA mulByB sr sgn0 hA hB hA0 hZ hsr hexc hexc0 u
 
-local instance {n : ℕ} [NeZero n] : DecidablePred (IsSquare : ZMod n → Prop) :=
+local instance decIsSquareZModSqrt {n : ℕ} [NeZero n] : DecidablePred (IsSquare : ZMod n → Prop) :=
   fun a => decidable_of_iff (∃ r, a = r * r) Iff.rfl
 
-instance : Fact (Nat.Prime 17) := ⟨by norm_num⟩
+local instance fact_prime_17 : Fact (Nat.Prime 17) := ⟨by norm_num⟩
 
 /-- non-vacuity over `ZMod 17` (`q - 1 = 2⁴·1`: `c1 = 4`, three loop iterations, `c3 = 0`, `c4 = 15`, `c5 = 8`),
 `Z = 3` (a primitive root), `c6 = c7 = 3`: all hypotheses hold -/
